@@ -5402,6 +5402,370 @@ fn mode_newprobe(work: &str, _seed: u64, _thorough: bool) {
 	out.flush();
 }
 
+
+// ---------------------------------------------------------------------------------------------
+// run `migrate`: the one-time migration inside `Store::new` (old single-db environment with
+// `p ':' rest` keys -> multi-db environment), its marker, its head-room resize, restarts
+// ---------------------------------------------------------------------------------------------
+const MIG_DB: &str = "chain";
+const MIG_MARKER: &[u8] = b"__grin_migration_complete";
+
+fn mig_open(root: &str, env_name: Option<&str>, prefixes: Vec<u8>, tx: Option<mpsc::Sender<i8>>) -> Result<Store, Error> {
+	global::set_local_chain_type(ChainTypes::AutomatedTesting);
+	Store::new(root, env_name, Some(MIG_DB), prefixes, None, tx)
+}
+
+/// (map size, last page) of the newest meta page of `<envdir>/data.mdb`
+fn meta_of(envdir: &std::path::Path) -> Option<(u64, u64)> {
+	let mut f = std::fs::File::open(envdir.join("data.mdb")).ok()?;
+	let mut buf = vec![0u8; 2 * 4096];
+	f.read_exact(&mut buf).ok()?;
+	let rd = |o: usize| u64::from_le_bytes(buf[o..o + 8].try_into().unwrap());
+	let mut best: Option<(u64, u64, u64)> = None;
+	for pg in 0..2 {
+		let b = pg * 4096 + 16;
+		let magic = u32::from_le_bytes(buf[b..b + 4].try_into().unwrap());
+		if magic != 0xBEEFC0DE {
+			continue;
+		}
+		let m = (rd(b + 16), rd(b + 24 + 96), rd(b + 24 + 96 + 8));
+		if best.map(|x| m.2 >= x.2).unwrap_or(true) {
+			best = Some(m);
+		}
+	}
+	best.map(|m| (m.0, m.1))
+}
+
+/// where the migration must put an old record (None = unknown key space: skipped by design)
+fn mig_target(k: &[u8]) -> Option<(Db, Vec<u8>)> {
+	if k.len() > 1 && k[1] == b':' {
+		if DBS.contains(&k[0]) {
+			Some((Some(k[0]), k[2..].to_vec()))
+		} else {
+			None
+		}
+	} else {
+		Some((None, k.to_vec()))
+	}
+}
+
+/// the process that runs a migrating `Store::new` and dies on a chosen progress message
+fn migrate_child(root: &str, kind: &str) {
+	let (tx, rx) = mpsc::channel::<i8>();
+	let kind = kind.to_string();
+	thread::spawn(move || {
+		for v in rx.iter() {
+			let hit = match kind.as_str() {
+				"start" => v == 0,
+				"mid" => v > 0 && v < 100,
+				"late" => v >= 90 && v < 100,
+				"done" => v == 100,
+				_ => false,
+			};
+			if hit {
+				unsafe {
+					libc::kill(libc::getpid(), libc::SIGKILL);
+				}
+			}
+		}
+	});
+	let r = mig_open(root, None, DBS.to_vec(), Some(tx));
+	// not killed: say so and exit normally
+	println!("child-finished {}", r.is_ok());
+	drop(r);
+}
+
+fn mode_migrate(work: &str, seed: u64, thorough: bool) {
+	let mut out = Out::stdout();
+	let mut rng = Rng::new(seed ^ 0x6d69_6772);
+	let exe = std::env::current_exe().expect("current_exe");
+	let toks: Vec<String> = all_dbs().iter().map(|d| db_tok(*d)).collect();
+	let mut n_scen = 0u64;
+	let mut n_recs = 0u64;
+	let mut n_skipped = 0u64;
+	let mut n_resized = 0u64;
+	let mut n_failed = 0u64;
+	let mut n_pre = 0u64;
+	let mut crash_points: BTreeMap<String, u64> = BTreeMap::new();
+	let mut oracle_fails = 0u64;
+	// (name, record generator kind, crash kind, pre-existing records in the new environment)
+	let mut scen: Vec<(&str, &str, Option<&str>, bool)> = vec![
+		("edge", "edge", None, false),
+		("random", "random", None, false),
+		("random-pre", "random", None, true),
+		("big", "big", None, false),
+		("big", "big", None, false),
+		("big-pre", "big", None, true),
+		("empty-rest", "bad", None, false),
+		("empty-old", "none", None, false),
+		("crash-start", "many", Some("start"), false),
+		("crash-mid", "many", Some("mid"), true),
+		("crash-late", "many", Some("late"), false),
+		("crash-done", "many", Some("done"), false),
+		("crash-mid-big", "big", Some("mid"), false),
+	];
+	if thorough {
+		for _ in 0..6 {
+			scen.push(("random", "random", None, false));
+			scen.push(("random-pre", "random", None, true));
+			scen.push(("crash-mid", "many", Some("mid"), false));
+			scen.push(("crash-done", "many", Some("done"), true));
+			scen.push(("big", "big", None, true));
+		}
+	}
+	for (si, (name, gen, crash, pre)) in scen.iter().enumerate() {
+		n_scen += 1;
+		let root = format!("{}/mig_{}", work, si);
+		let stage = format!("{}/mig_{}_stage", work, si);
+		let _ = std::fs::remove_dir_all(&root);
+		let _ = std::fs::remove_dir_all(&stage);
+		// ---- the old environment's records
+		let mut recs: BTreeMap<Vec<u8>, Vec<u8>> = BTreeMap::new();
+		let small_key = |rng: &mut Rng| -> Vec<u8> {
+			let first = *rng.pick(&[b'A', b'B', b'Z', b'Q', b'H', b':', 0u8, 0xffu8]);
+			let mut k = vec![first];
+			match rng.below(5) {
+				0 => {}
+				1 => k.push(b':'),
+				2 => {
+					k.push(b':');
+					k.extend({ let n_ = rng.range(1, 12) as usize; rng.bytes(n_) });
+				}
+				3 => {
+					k.push(b';');
+					k.extend({ let n_ = rng.range(0, 6) as usize; rng.bytes(n_) });
+				}
+				_ => {
+					k.push(b':');
+					k.push(b':');
+					k.extend({ let n_ = rng.range(0, 3) as usize; rng.bytes(n_) });
+				}
+			}
+			k
+		};
+		match *gen {
+			"edge" => {
+				for k in [
+					vec![b'A'],
+					vec![b'A', b'B'],
+					vec![b'A', b':', b'x'],
+					vec![b'A', b':', b':'],
+					vec![b'A', b':', b':', b'y'],
+					vec![b'B', b':', 0],
+					vec![b'B', b':', 0xff, 0xff],
+					vec![b'Z', b':', b'A', b':', b'k'],
+					vec![b'Q', b':', b'u', b'n', b'k'],
+					vec![b':', b':', b'c'],
+					vec![b'H'],
+					vec![b'x', b'y', b':', b'z'],
+					vec![0, b':', 1],
+					[b"A:".to_vec(), vec![7u8; 509]].concat(),
+					vec![9u8; 511],
+				] {
+					let v = { let n_ = rng.range(0, 40) as usize; rng.bytes(n_) };
+					recs.insert(k, v);
+				}
+			}
+			"random" | "many" | "bad" => {
+				let n = if *gen == "many" { rng.range(300, 500) } else { rng.range(20, 90) };
+				for _ in 0..n {
+					let k = small_key(&mut rng);
+					if k.len() == 2 && k[1] == b':' && DBS.contains(&k[0]) {
+						continue; // empty rest: only in the `bad` scenario
+					}
+					let v = if rng.chance(1, 12) { { let b_ = rng.below(256) as u8; let n_ = rng.range(49, 3000) as usize; vec![b_; n_] } } else { { let n_ = rng.range(0, 48) as usize; rng.bytes(n_) } };
+					recs.insert(k, v);
+				}
+				if *gen == "bad" {
+					recs.insert(vec![b'B', b':'], vec![1, 2, 3]);
+				}
+			}
+			"big" => {
+				let nbig = rng.range(9, 44) as u8;
+				for i in 0..nbig {
+					let mut k = vec![*rng.pick(&[b'A', b'B', b'Z']), b':'];
+					k.extend_from_slice(&[i, i ^ 0x5a]);
+					recs.insert(k, vec![i; 48 * 1024 + i as usize]);
+				}
+				for _ in 0..20 {
+					let k = small_key(&mut rng);
+					if k.len() == 2 && k[1] == b':' && DBS.contains(&k[0]) {
+						continue;
+					}
+					recs.insert(k, rng.bytes(8));
+				}
+			}
+			_ => {}
+		}
+		recs.remove(&Vec::<u8>::new());
+		n_recs += recs.len() as u64;
+		// ---- build it as a real LMDB environment with the database name the migration will ask for
+		{
+			let st = mig_open(&stage, None, vec![], None).expect("stage store");
+			let items: Vec<(&Vec<u8>, &Vec<u8>)> = recs.iter().collect();
+			for chunk in items.chunks(if *gen == "big" { 1 } else { 25 }) {
+				let mut b = st.batch().expect("stage batch");
+				for (k, v) in chunk {
+					b.put(None, k, v).expect("stage put");
+				}
+				b.commit().expect("stage commit");
+			}
+		}
+		out.line(&format!("kv new [{}]", toks.join(",")), "ok");
+		// ---- the new environment exists already (and may hold records, which a migration clears)
+		{
+			let st = mig_open(&root, None, DBS.to_vec(), None).expect("new store");
+			if *pre {
+				n_pre += 1;
+				let mut b = st.batch().expect("batch");
+				out.line("kv begin", "ok");
+				for _ in 0..rng.range(1, 6) {
+					let db = *rng.pick(&all_dbs());
+					let k = { let n_ = rng.range(1, 5) as usize; rng.bytes(n_) };
+					let v = { let n_ = rng.range(0, 20) as usize; rng.bytes(n_) };
+					let r = b.put(db, &k, &v);
+					out.line(&format!("kv put {} {} {}", db_tok(db), hex(&k), valtok(&v)), if r.is_ok() { "ok" } else { "err" });
+				}
+				let r = b.commit();
+				out.line("kv commit", if r.is_ok() { "ok" } else { "err" });
+				out.line("kv obs", &dump_store(&st).unwrap_or_else(|_| "err".into()));
+			}
+		}
+		let new_env = std::path::Path::new(&root).join("multi_lmdb");
+		let old_env = std::path::Path::new(&root).join("lmdb");
+		let to_meta = meta_of(&new_env);
+		if *gen != "none" {
+			std::fs::rename(std::path::Path::new(&stage).join("multi_lmdb"), &old_env).expect("move old env in place");
+			let parts: Vec<String> = recs.iter().map(|(k, v)| format!("{}={}", hex(k), valtok(v))).collect();
+			out.line(&format!("kv mig_old [{}]", parts.join(",")), "ok");
+		}
+		let from_meta = meta_of(&old_env);
+		// ---- a process that dies inside the migration
+		if let Some(kind) = crash {
+			let mut child = std::process::Command::new(&exe)
+				.args(["migrate-child", &root, kind])
+				.stdin(std::process::Stdio::null())
+				.stdout(std::process::Stdio::piped())
+				.stderr(std::process::Stdio::null())
+				.spawn()
+				.expect("spawn migrate child");
+			let outp = child.wait_with_output().expect("wait");
+			let txt = String::from_utf8_lossy(&outp.stdout).to_string();
+			let killed = !txt.contains("child-finished");
+			// what is on disk now decides which of the model's crash states this is
+			let (label, dump) = {
+				let st = mig_open(&root, Some("multi_lmdb"), DBS.to_vec(), None).expect("open without migration");
+				let marker = st.exists(None, MIG_MARKER).unwrap_or(false);
+				let label = if !marker { "afterClear" } else if old_env.exists() { "afterCommit" } else { "afterDelete" };
+				(label, dump_store(&st).unwrap_or_else(|_| "err".into()))
+			};
+			*crash_points.entry(format!("{}:{}{}", kind, label, if killed { "" } else { "(not killed)" })).or_insert(0) += 1;
+			out.line(&format!("kv mig_crash {}", label), "ok");
+			out.line("kv obs", &dump);
+			out.line("kv mig_olddir", if old_env.exists() { "present" } else { "gone" });
+		}
+		// ---- the (re)start that migrates
+		let (ptx, prx) = mpsc::channel::<i8>();
+		let res = mig_open(&root, None, DBS.to_vec(), Some(ptx));
+		let progress: Vec<i8> = prx.try_iter().collect();
+		out.line("kv mig_run", if res.is_ok() { "ok" } else { "err" });
+		match res {
+			Ok(st) => {
+				if let (Some(tm), Some(fm), Some(am)) = (to_meta, from_meta, meta_of(&new_env)) {
+					if crash.is_none() && *gen != "none" {
+						out.line(&format!("kv mig_size {} {} {} {}", tm.1 * 4096, fm.1 * 4096, 1048576, tm.0), &am.0.to_string());
+						if am.0 > tm.0 {
+							n_resized += 1;
+						}
+					}
+				}
+				let dump = dump_store(&st).unwrap_or_else(|_| "err".into());
+				out.line("kv obs", &dump);
+				out.line("kv mig_olddir", if old_env.exists() { "present" } else { "gone" });
+				// the oracle on the implementation: nothing lost, nothing invented
+				if *gen != "none" && !*pre || crash.is_some() || true {
+					let mut want: BTreeMap<(u16, Vec<u8>), Vec<u8>> = BTreeMap::new();
+					for (k, v) in recs.iter() {
+						match mig_target(k) {
+							Some((db, kk)) => {
+								want.insert((db_id(db), kk), v.clone());
+							}
+							None => n_skipped += 1,
+						}
+					}
+					if *gen != "none" {
+						want.insert((0, MIG_MARKER.to_vec()), b"1".to_vec());
+					}
+					let mut got: BTreeMap<(u16, Vec<u8>), Vec<u8>> = BTreeMap::new();
+					for db in all_dbs() {
+						if let Ok(v) = collect_iter(st.iter(db, kvpair)) {
+							for (k, val) in v {
+								got.insert((db_id(db), k), val);
+							}
+						}
+					}
+					for (k, v) in want.iter() {
+						match got.get(k) {
+							Some(g) if g == v => {}
+							Some(_) => {
+								oracle_fails += 1;
+								out.raw(&format!("#ORACLE-FAIL C18 migration [{}]: record db={} key={} arrived with a different value", name, k.0, hex(&k.1)));
+							}
+							None => {
+								oracle_fails += 1;
+								out.raw(&format!("#ORACLE-FAIL C18 migration [{}]: committed record of the old environment lost: db={} key={} ({} old records)", name, k.0, hex(&k.1), recs.len()));
+							}
+						}
+					}
+					for k in got.keys() {
+						if !want.contains_key(k) && *gen != "none" {
+							oracle_fails += 1;
+							out.raw(&format!("#ORACLE-FAIL C18 migration [{}]: record db={} key={} is in the new environment but was not in the old one", name, k.0, hex(&k.1)));
+						}
+					}
+					if *gen != "none" && crash.is_none() && (progress.first() != Some(&0) || progress.last() != Some(&100)) {
+						oracle_fails += 1;
+						out.raw(&format!("#ORACLE-FAIL C18 migration [{}]: progress messages {:?} do not run from 0 to 100", name, progress));
+					}
+				}
+				// the migrated store is an ordinary store: one more batch, then a restart that must not migrate again
+				{
+					let mut b = st.batch().expect("batch after migration");
+					out.line("kv begin", "ok");
+					let k = vec![b'n', si as u8];
+					let r = b.put(Some(b'A'), &k, b"after");
+					out.line(&format!("kv put {} {} {}", db_tok(Some(b'A')), hex(&k), valtok(b"after")), if r.is_ok() { "ok" } else { "err" });
+					let r = b.commit();
+					out.line("kv commit", if r.is_ok() { "ok" } else { "err" });
+				}
+				drop(st);
+				match mig_open(&root, None, DBS.to_vec(), None) {
+					Ok(st) => {
+						out.line("kv mig_run", "ok");
+						out.line("kv obs", &dump_store(&st).unwrap_or_else(|_| "err".into()));
+					}
+					Err(_) => out.line("kv mig_run", "err"),
+				}
+			}
+			Err(_) => {
+				n_failed += 1;
+				// refused: the new environment must be empty, the old one untouched
+				let st = mig_open(&root, Some("multi_lmdb"), DBS.to_vec(), None).expect("open without migration");
+				out.line("kv obs", &dump_store(&st).unwrap_or_else(|_| "err".into()));
+				out.line("kv mig_olddir", if old_env.exists() { "present" } else { "gone" });
+			}
+		}
+		let _ = std::fs::remove_dir_all(&root);
+		let _ = std::fs::remove_dir_all(&stage);
+	}
+	let cp: Vec<String> = crash_points.iter().map(|(k, v)| format!("{}={}", k, v)).collect();
+	out.raw(&format!(
+		"#STAT [migrate] scenarios={} old records={} (unknown key space, skipped by design: {}) migrations that enlarged the map first={} refused (empty key after the prefix)={} new environment held records before={} processes killed inside Store::new by progress message -> state found on disk: {} oracle failures={}",
+		n_scen, n_recs, n_skipped, n_resized, n_failed, n_pre, cp.join(" "), oracle_fails
+	));
+	out.flush();
+}
+
 fn main() {
 	quiet_panics();
 	let args: Vec<String> = std::env::args().collect();
@@ -5412,6 +5776,10 @@ fn main() {
 	if std::env::var("KV_DEBUG_LOG").is_ok() {
 		// debugging aid only: grin's debug log (resize decisions) interleaved on stdout
 		grin_util::init_test_logger();
+	}
+	if mode == "migrate-child" {
+		migrate_child(&args[2], &args[3]);
+		return;
 	}
 	if mode == "crash-child" {
 		let dir = &args[2];
@@ -5434,6 +5802,7 @@ fn main() {
 		"inflight" => mode_inflight(&work, seed, thorough),
 		"handles" => mode_handles(&work, seed, thorough),
 		"slowreader" => mode_slowreader(&work, seed, thorough),
+		"migrate" => mode_migrate(&work, seed, thorough),
 		"newprobe" => mode_newprobe(&work, seed, thorough),
 		_ => {
 			eprintln!("unknown mode {}", mode);
